@@ -10,39 +10,143 @@ open Iwe Actions
 /-- **every block reference that pointed to the old key points to the new one, every other one is
 untouched** -/
 theorem changeKey_block_refs (a b : String) (t : Tree) :
-    Content.refKeys (Tree.changeKey a b t) = (Content.refKeys t).map fun k => if k == a then b else k := by
-  sorry
+    Content.refKeys (Tree.changeKey a b t) = (Content.refKeys t).map fun k => if k == a then b else k :=
+  Content.refKeys_changeKey a b t
 
-/-- **the same for links inside text** (note links; an external url never equals a key through
-`from_file_name` unless it names one — they are excluded by `is_ref`): provided `b` is a
-normalised key (so that `from_file_name b = b`) -/
-theorem changeKey_inline_links (a b : String) (t : Tree) (hb : keyFromFileName b = b)
-    (hext : ∀ k ∈ Content.inlineKeys t, k = a → True) :
-    ∀ k, k ∈ Content.inlineKeys (Tree.changeKey a b t) → k = b ∨ k ∈ Content.inlineKeys t := by
-  sorry
+/-- **the same for links inside text, exact form**: with `Content.inlineSites t` the link sites of
+the note in index order (`(reached, url)`, `reached = false` inside the alt text of an image, see
+`IweModel/Lemmas/TreeRekey.lean`), every site is indexed under `from_file_name url` before, and
+after `change_key a b` under `from_file_name b` if it is hit (reached, `is_ref url`, key `a`) and
+under its old key otherwise -/
+theorem changeKey_inline_links_exact (a b : String) (t : Tree) :
+    Content.inlineKeys t = (Content.inlineSites t).map Inline.siteKey
+    ∧ Content.inlineKeys (Tree.changeKey a b t) = (Content.inlineSites t).map (Inline.rekeySite a b) :=
+  ⟨Content.inlineKeys_eq_sites t, Content.inlineKeys_changeKey a b t⟩
+
+/-- **the same for links inside text** (restated: the original had a vacuous hypothesis `hext` and
+only the first conjunct).  Provided `b` is a normalised key (`from_file_name b = b`):
+every inline key of the result is `b` or was one of the original; every original inline key other
+than `a` is still there; there are as many as before and position by position the key is kept or
+goes from `a` to `b`.
+Not every link indexed under `a` is rewritten: see `changeKey_skips_external_link`,
+`changeKey_skips_image_alt` and `changeKey_inline_links_complete`. -/
+theorem changeKey_inline_links (a b : String) (t : Tree) (hb : keyFromFileName b = b) :
+    (∀ k, k ∈ Content.inlineKeys (Tree.changeKey a b t) → k = b ∨ k ∈ Content.inlineKeys t)
+    ∧ (∀ k, k ∈ Content.inlineKeys t → k ≠ a → k ∈ Content.inlineKeys (Tree.changeKey a b t))
+    ∧ (Content.inlineKeys (Tree.changeKey a b t)).length = (Content.inlineKeys t).length
+    ∧ (∀ p ∈ (Content.inlineKeys (Tree.changeKey a b t)).zip (Content.inlineKeys t),
+        p.1 = p.2 ∨ (p.2 = a ∧ p.1 = b)) := by
+  rw [Content.inlineKeys_eq_sites t, Content.inlineKeys_changeKey a b t]
+  generalize Content.inlineSites t = l
+  refine ⟨?_, ?_, by simp, ?_⟩
+  · intro k hk
+    simp only [List.mem_map] at hk ⊢
+    obtain ⟨p, hp, rfl⟩ := hk
+    unfold Inline.rekeySite
+    split
+    · exact .inl hb
+    · exact .inr ⟨p, hp, rfl⟩
+  · intro k hk hne
+    simp only [List.mem_map] at hk ⊢
+    obtain ⟨p, hp, rfl⟩ := hk
+    refine ⟨p, hp, ?_⟩
+    unfold Inline.rekeySite
+    split
+    · rename_i hhit
+      simp only [Inline.siteHit, Bool.and_eq_true, beq_iff_eq] at hhit
+      exact absurd hhit.2 hne
+    · rfl
+  · intro q hq
+    rw [List.zip_map', List.mem_map] at hq
+    obtain ⟨p, _, rfl⟩ := hq
+    show Inline.rekeySite a b p = Inline.siteKey p ∨ (Inline.siteKey p = a ∧ Inline.rekeySite a b p = b)
+    unfold Inline.rekeySite
+    split
+    · rename_i hhit
+      simp only [Inline.siteHit, Bool.and_eq_true, beq_iff_eq] at hhit
+      exact .inr ⟨hhit.2, hb⟩
+    · exact .inl rfl
+
+/-- **completeness under the side condition**: if every link indexed under `a` is a note link
+outside image alt text, then after `change_key a b` (`a ≠ b`, `b` normalised) no inline link is
+indexed under `a` any more, and those under `b` are exactly the old ones plus the re-targeted ones -/
+theorem changeKey_inline_links_complete (a b : String) (t : Tree) (hb : keyFromFileName b = b) (hab : a ≠ b)
+    (hall : ∀ p ∈ Content.inlineSites t, Inline.siteKey p = a → p.1 = true ∧ isRefUrl p.2 = true) :
+    a ∉ Content.inlineKeys (Tree.changeKey a b t)
+    ∧ (Content.inlineKeys (Tree.changeKey a b t)).count b
+        = (Content.inlineKeys t).count a + (Content.inlineKeys t).count b := by
+  rw [Content.inlineKeys_eq_sites t, Content.inlineKeys_changeKey a b t]
+  generalize Content.inlineSites t = l at hall
+  have hhit : ∀ p ∈ l, Inline.siteKey p = a → Inline.siteHit a p = true := by
+    intro p hp hk
+    obtain ⟨h1, h2⟩ := hall p hp hk
+    simp only [Inline.siteKey] at hk
+    simp [Inline.siteHit, h1, h2, hk]
+  have hmiss : ∀ p : Bool × String, Inline.siteKey p ≠ a → Inline.siteHit a p = false := by
+    intro p hk
+    simp only [Inline.siteKey] at hk
+    simp [Inline.siteHit, hk]
+  clear hall
+  constructor
+  · intro hm
+    simp only [List.mem_map] at hm
+    obtain ⟨p, hp, he⟩ := hm
+    by_cases hk : Inline.siteKey p = a
+    · simp only [Inline.rekeySite, hhit p hp hk, if_true, hb] at he
+      exact hab he.symm
+    · simp only [Inline.rekeySite, hmiss p hk] at he
+      exact hk he
+  · induction l with
+    | nil => simp
+    | cons p l ih =>
+      have ih' := ih (fun q hq => hhit q (List.mem_cons_of_mem _ hq))
+      simp only [List.map_cons, List.count_cons, ih']
+      by_cases hk : Inline.siteKey p = a
+      · have hab' : (a == b) = false := by simpa using hab
+        simp [Inline.rekeySite, hhit p (List.mem_cons_self) hk, hb, hk, hab']
+        omega
+      · have hk' : (Inline.siteKey p == a) = false := by simpa using hk
+        simp [Inline.rekeySite, hmiss p hk, hk']
+        omega
+
+/-- a link indexed under `a` that is not a note link (`is_ref` false) is left alone by `change_key`
+although `ref_keys` lists it -/
+theorem changeKey_skips_external_link :
+    let t : Tree := .mk (some 0) (.leaf [.link "https://a" "" .regular [.str "x"]]) []
+    (Content.inlineKeys t == ["https://a"]
+      && Content.inlineKeys (Tree.changeKey "https://a" "b" t) == ["https://a"]) = true := by
+  decide
+
+/-- **finding (model level)**: a note link inside the alt text of an image is indexed as an inline
+reference (`ref_keys` enters `Image`) but is not rewritten by rename (`change_key` has no `Image`
+arm): after renaming `a` to `b` it still points to `a` -/
+theorem changeKey_skips_image_alt :
+    let t : Tree := .mk (some 0) (.leaf [.image "pic.png" "" [.link "a" "" .regular [.str "x"]]]) []
+    (Content.inlineKeys t == ["a"] && Content.inlineKeys (Tree.changeKey "a" "b" t) == ["a"]) = true := by
+  decide
 
 /-- structure, ids and all non-link content are unchanged by `change_key` -/
 theorem changeKey_keeps_shape (a b : String) (t : Tree) :
-    Tree.ids (Tree.changeKey a b t) = Tree.ids t ∧ Tree.size (Tree.changeKey a b t) = Tree.size t := by
-  sorry
+    Tree.ids (Tree.changeKey a b t) = Tree.ids t ∧ Tree.size (Tree.changeKey a b t) = Tree.size t :=
+  ⟨Tree.ids_changeKey a b t, Tree.size_changeKey a b t⟩
 
 /-- a note without any link to the old key is returned unchanged -/
 theorem changeKey_frame (a b : String) (t : Tree)
     (h1 : a ∉ Content.refKeys t) (h2 : a ∉ Content.inlineKeys t) :
-    Tree.changeKey a b t = t := by
-  sorry
+    Tree.changeKey a b t = t :=
+  Tree.changeKey_frame a b t h1 h2
 
 /-- **renaming onto an existing note is refused without edits** -/
 theorem rename_refused_if_taken (g : Graph) (fromKey : String) (url : Option String) (newName : String)
     (h : (assocGet g.keys (keyFromFileName newName)).isSome = true) :
     rename g fromKey url newName = .error (.other "taken") := by
-  sorry
+  simp [rename, h]
 
 /-- no link under the cursor: nothing happens -/
 theorem rename_without_link (g : Graph) (fromKey newName : String)
     (h : (assocGet g.keys (keyFromFileName newName)).isSome = false) :
     rename g fromKey none newName = .ok none := by
-  sorry
+  simp [rename, h]
 
 /-- **shape of the edit**: when rename succeeds it deletes the old note, creates the new one with
 the old content re-keyed, and rewrites exactly the notes that hold a live link to the old key
@@ -58,7 +162,18 @@ theorem rename_edit_shape (g : Graph) (fromKey url newName : String) (cs : List 
           (dedupStr (((g.blockReferencesTo (keyFromRel url (keyParent fromKey))
                         ++ g.inlineReferencesTo (keyFromRel url (keyParent fromKey))).filterMap g.nodeKey).filter
                       fun k => !(k == keyFromRel url (keyParent fromKey))))).length := by
-  sorry
+  unfold rename at h
+  simp only at h
+  split at h
+  · cases h
+  · split at h
+    · cases h
+    · rename_i tree hcollect
+      split at h
+      · cases h
+      · simp only [Except.ok.injEq, Option.some.injEq] at h
+        refine ⟨_, tree, hcollect, h.symm, ?_⟩
+        simp
 
 /-- **finding D16, in the model**: the new name is taken root-relative when the note is built and
 directory-relative when it is exported; from a sub-directory the two differ and the handler
